@@ -204,5 +204,8 @@ func c05Template(t *Tape) *Prog {
 	if t.Chance("tmpl.nonfatal", 40) {
 		p.Body = append(p.Body, &Stmt{K: SIf, Cond: &Cond{Var: 1, F: 0, Op: OpGE, C: 2}, Body: []*Stmt{{K: SFail, FKind: FKErrorf, Site: 2}}})
 	}
+	if p.SiteStyle = t.Weighted("tmpl.sitestyle", 6, 2, 1); p.SiteStyle == 2 {
+		coerceKinds(p.Body)
+	}
 	return p
 }
